@@ -33,6 +33,7 @@ struct RunState {
     Stats agg;
     std::set<uint64_t> taskKindsInverted;
     std::map<long, std::set<int>> kernelIndexWorkers;
+    int maxThreadsSeen = 0;
     explicit RunState(Ctx& c, const Scenario& s) : ctx(c), sc(s) {}
 
     void drain(const std::string& origin) {
@@ -43,6 +44,12 @@ struct RunState {
 
 void prepareInputs(Ctx& ctx, const Scenario& sc) {
     for (int t = 0; t < 2; ++t) ctx.inputs[t].clear();
+    if (sc.kernel == "rot" || sc.kernel == "unif") {   // physical values in (0, 1]
+        const double scale = 1.0 / double(1ULL << 40);
+        for (size_t i = 0; i < sc.src.size(); ++i) ctx.inputs[0].push_back({{sc.src[i][0], sc.src[i][1], sc.src[i][2], double(wkWeight(sc.runKey, 0, long(i))) * scale}});
+        for (size_t i = 0; i < sc.tgt.size(); ++i) ctx.inputs[1].push_back({{sc.tgt[i][0], sc.tgt[i][1], sc.tgt[i][2], double(wkWeight(sc.runKey, 1, long(i))) * scale}});
+        return;
+    }
     for (size_t i = 0; i < sc.src.size(); ++i)
         ctx.inputs[0].push_back({{sc.src[i][0], sc.src[i][1], sc.src[i][2], double(wkWeight(sc.runKey, 0, long(i)))}});
     for (size_t i = 0; i < sc.tgt.size(); ++i)
@@ -87,6 +94,13 @@ void doExecute(RunState& rs, IWorld& w, const HistOp& op, bool simulate, const s
     ctx.sim.errors.clear();
     ctx.sim.stats = Stats();
     if (simulate) ctx.sim.maxThreads = op.threads > 0 ? op.threads : rs.sc.threadsExec;
+    // the executor creates additional per-thread kernel copies inside execute() when the thread count grew: those
+    // allocations are legitimate, so the allocation-balance oracle only applies to calls without such growth, and
+    // only with the probe kernels (library kernels may cache)
+    if (rs.maxThreadsSeen == 0) rs.maxThreadsSeen = rs.sc.threadsCtor;
+    const bool kernelGrowth = simulate && ctx.sim.maxThreads > rs.maxThreadsSeen;
+    if (simulate && ctx.sim.maxThreads > rs.maxThreadsSeen) rs.maxThreadsSeen = ctx.sim.maxThreads;
+    const bool balanceApplies = !kernelGrowth && (rs.sc.kernel == "weight" || rs.sc.kernel == "test");
     const long live0 = liveAllocations();
     setStage(simulate ? "task-execute" : "seq-execute");
     w.execute(op.flags);
@@ -102,7 +116,7 @@ void doExecute(RunState& rs, IWorld& w, const HistOp& op, bool simulate, const s
         for (auto& e : ctx.sim.errors) rs.fwErrors.push_back(e);
         for (const auto& tp : ctx.sim.tasks) if (tp->state != 2) { ctx.addViolation("quiescence", "task-not-run", "execute() returned while " + ctx.sim.taskLabel(tp->id) + " had not run"); break; }
         checkKernelObjects(rs, w, origin);
-        if (live0 >= 0 && live1 != live0)
+        if (balanceApplies && live0 >= 0 && live1 != live0)
             ctx.addViolation("quiescence", "live-allocations", "execute() changed the number of live heap blocks allocated by the library from " + std::to_string(live0) + " to " + std::to_string(live1));
     }
     rs.drain(origin);
@@ -210,8 +224,11 @@ void recipeExec(RunState& rs) {
         world->makeAlgo();
         runHistory(rs, *world, sc.history, sc.isTaskBased(), "run");
         setStage("compare");
-        compareViews(ctx, world->view(), twin->view(), (1u << BUF_MULT) | (1u << BUF_LOCAL) | (1u << BUF_RHS), counter ? "counter-result" : "value",
-                     std::string(counter ? "counter-wrapped kernel vs plain kernel" : "task-based executor vs sequential executor"));
+        if (sc.kernel == "rot" || sc.kernel == "unif")
+            compareViewsTol(ctx, world->view(), twin->view(), 1e-9, "value", "task-based executor vs sequential executor (floating-point kernel)");
+        else
+            compareViews(ctx, world->view(), twin->view(), (1u << BUF_MULT) | (1u << BUF_LOCAL) | (1u << BUF_RHS), counter ? "counter-result" : "value",
+                         std::string(counter ? "counter-wrapped kernel vs plain kernel" : "task-based executor vs sequential executor"));
         compareViews(ctx, world->view(), twin->view(), (1u << BUF_CELL_SYMB) | (1u << BUF_PART_SYMB), "symbolic-changed", "symbolic data after execute vs sequential twin");
         rs.drain("run");
         if (weightLayout && !counter && !hasTop && sc.isTsm()) {
